@@ -112,9 +112,10 @@ type FnGen struct {
 	ghostLocals map[string]Val
 	qfacts      []QFact
 	autoInvs    map[*ssa.BasicBlock][]autoInv
+	loopTypeInvObjs map[*ssa.BasicBlock][]Val
 
 	ownAllocs map[string][]ownAlloc // type name -> objects allocated here (invariant not yet assumed)
-	dirty     map[string][]Val    // type name -> pre-existing objects whose invariant fields were written
+	dirty     map[string][]dirtyObj // type name -> pre-existing objects whose invariant fields were written
 
 	domainTerm string        // the contract's domain predicate at entry ("" if none)
 	locals    map[string]Val // source-level locals (from DebugRef), latest value seen
@@ -150,7 +151,7 @@ func NewFnGen(P *Program, S *Specs, E *Effects, fn *ssa.Function) *FnGen {
 		blockGuard: map[*ssa.BasicBlock]string{}, exitState: map[*ssa.BasicBlock]State{},
 		edgeCond: map[[2]*ssa.BasicBlock]string{}, loops: map[*ssa.BasicBlock]*loopInfo{},
 		env: map[string]Val{}, siteNames: map[ssa.Instruction]string{}, callOrd: map[ssa.Instruction]int{},
-		assumptions: map[string]bool{}, usedExtern: map[string]bool{}, defaultPure: map[string]bool{}, autoInvs: map[*ssa.BasicBlock][]autoInv{}, entryGuard: "true", inlined: map[string]bool{}, ownAllocs: map[string][]ownAlloc{}, dirty: map[string][]Val{}}
+		assumptions: map[string]bool{}, usedExtern: map[string]bool{}, defaultPure: map[string]bool{}, autoInvs: map[*ssa.BasicBlock][]autoInv{}, loopTypeInvObjs: map[*ssa.BasicBlock][]Val{}, entryGuard: "true", inlined: map[string]bool{}, ownAllocs: map[string][]ownAlloc{}, dirty: map[string][]dirtyObj{}}
 	g.C = S.Contracts[g.name]
 	g.D.ensureLive()
 	return g
@@ -458,6 +459,11 @@ func (g *FnGen) freshVal(prefix string, t types.Type, guard string) Val {
 
 type ownAlloc struct{ term, guard string }
 
+type dirtyObj struct {
+	v     Val
+	guard string
+}
+
 func typeInvName(t types.Type) string {
 	if t == nil {
 		return ""
@@ -603,6 +609,9 @@ func (g *FnGen) storeStruct(st State, ref string, t types.Type, v string) {
 }
 
 func (g *FnGen) load(st State, addr Val) Val {
+	if addr.PlaceLost {
+		panic(unsupported{"dereference of a pointer whose target (slice element / field) differs between control-flow paths"})
+	}
 	pt := addr.Go.Underlying().(*types.Pointer)
 	et := pt.Elem()
 	if p := g.placeOf(addr); p != nil {
@@ -619,6 +628,9 @@ func (g *FnGen) load(st State, addr Val) Val {
 }
 
 func (g *FnGen) storeTo(st State, addr Val, v Val) {
+	if addr.PlaceLost {
+		panic(unsupported{"store through a pointer whose target (slice element / field) differs between control-flow paths"})
+	}
 	pt := addr.Go.Underlying().(*types.Pointer)
 	et := pt.Elem()
 	if p := g.placeOf(addr); p != nil {
